@@ -28,20 +28,20 @@ func init() {
 func init() {
 	reg(&propCfg{
 		ID:      "C12",
-		Pkgs:    []string{"tax"},
-		Lenient: []string{"tax", "num", "cal"},
+		Pkgs:    []string{"tax", "bill"},
+		Lenient: []string{"tax", "num", "cal", "bill", "cbc", "org", "currency", "pay"},
 		Stages: []stage{
 			{Name: "rates", Harness: `^H_C12_`},
 		},
-		Functions: []string{"tax.(*RateDef).Value", "tax.(*RateValueDef).hasAnyTag", "tax.Extensions.Contains", "tax.checkRateValuesOrder", "tax.(*Combo).prepareRate", "tax.(*CategoryDef).RateDef",
+		Functions: []string{"bill.calculate (value date / issue date choice, combo preparation on the lines)", "tax.(*RateDef).Value", "tax.(*RateValueDef).hasAnyTag", "tax.Extensions.Contains", "tax.checkRateValuesOrder", "tax.(*Combo).prepareRate", "tax.(*CategoryDef).RateDef",
 			"civil.Date.Before", "cal.Date.IsValid"},
 		Stubs: []string{"tax.AllRegimeDefs: executed natively on the real initialised registry, result graph imported by reflection (all shipped regime tables of the current tree)",
 			"civil.Date.IsValid: native for concrete dates, Gregorian formula (leap years via Euclid witnesses) for symbolic dates", "ErrInvalidRate.WithMessage / fmt: opaque errors"},
 		Bounds: map[string][]string{
-			"quick":    {"every shipped regime x category x rate key x qualifier context (none, or the tags/extensions of each table value)", "date: every valid civil date 1900-01-01..2100-12-31 (symbolic year, month, day)", "generic lemma: tables of 1..3 unqualified values with symbolic dates"},
+			"quick":    {"every shipped regime x category x rate key x qualifier context (none, or the tags/extensions of each table value)", "date: every valid civil date 1900-01-01..2100-12-31 (symbolic year, month, day)", "generic lemma: tables of 1..3 unqualified values with symbolic dates", "document level: issue date and optional value date each any valid date 1990..2030 (symbolic), every dated VAT rate key of ES, PT, FR"},
 			"thorough": {"same as quick"},
 		},
-		Outside:     []string{"choice of value date vs issue date at the top of bill.calculate (covered by the C01/C14 skeletons)", "tag/extension ordering inside tables (the code itself skips it, see its TODO)"},
+		Outside:     []string{"tag/extension ordering inside tables (the code itself skips it, see its TODO)", "document types other than invoices at the document level"},
 		Assumptions: []string{"native import reproduces the registry faithfully (reflection over the linked packages)", "go/ssa faithful; z3 sound"},
 	})
 }
